@@ -6,7 +6,7 @@ THEOREMS = ['C16.parse_serialize_pl', 'C16.parse_serialize_ll', 'C16.serialize_f
 TRUSTED = ['Go stdlib: strconv.ParseInt/FormatInt/Quote, encoding/base64, sort.Strings, strings.TrimLeft/IndexByte (modelled, compared)']
 ASSUMPTIONS = ['Go map-typed Parameters cannot hold duplicate keys: the model takes a key list with distinct keys']
 RULE = ('sh.parse.pl / sh.parse.ll on ALL strings up to length 4 (quick) / 5 (thorough) over the 22-symbol grammar alphabet, plus generated valid values of every item type '
-        '(int64 extremes, strings with quotes/backslashes, tokens with every punctuation, byte sequences of every length mod 3) serialized and re-parsed, invalid values, '
+        '(int64 extremes, strings with quotes/backslashes, tokens with every punctuation, byte sequences of every length mod 3 and of every length 0..70, around powers of two 64..65536 and up to 100003) serialized and re-parsed, invalid values, '
         'random and mutated header strings; compared: value tree (parameters sorted by key) or error, String() output; non-trivial = op line distinct')
 ALPHA = [b'a', b'A', b'1', b'-', b'"', b'\\', b'*', b';', b',', b'=', b' ', b'\t', b'_', b'/', b':', b'%', b'.', b'\x7f', b'\x1f', b'+', b'\n', b'\r']
 EXHAUSTIVE = {'quick': 'all strings of length <= 4 over ' + repr(b''.join(ALPHA)) + ' for both entry points',
@@ -166,3 +166,23 @@ def generate(tier, rng):
         for enc in (base64.b64encode(raw), base64.b64encode(raw).rstrip(b'='), base64.urlsafe_b64encode(raw)):
             yield f'sh.parse.ll {hexs(b"*" + enc + b"*")}'
             yield f'sh.parse.ll {hexs(b"*" + enc)}'
+    # byte sequences by LENGTH, on the serializer side and back: every length 0..70 (all residues mod 3, one base64 line of 48 / 57
+    # bytes), around every power of two from 64 to 65536 and other plausible buffer / chunk sizes (a writer that encodes in pieces must
+    # not pad in the middle), up to 100000+; as list member, as parameter value, twice in one list; each also parsed back from the
+    # canonical text built here (independent base64)
+    lens = set(range(0, 71))
+    for c in [2**j for j in range(6, 17)] + [76, 100, 1000, 1500, 3072, 10000, 12288, 49152, 100000]:
+        lens.update([c - 1, c, c + 1, c + 2])
+    lens.update([3 * 512, 3 * 512 + 1, 2 * 4096 + 1, 100003])
+    for n_ in sorted(lens):
+        raw = rbytes(rng, n_)
+        b = 'b' + hexs(raw)
+        txt = b'*' + base64.b64encode(raw) + b'*'
+        yield f'sh.ser.ll {b}'
+        yield f'sh.ser.pl {hexs(b"label")};{hexs(b"sig")}={b}'
+        yield f'sh.parse.ll {hexs(txt)}'
+        yield f'sh.parse.pl {hexs(b"label;sig=" + txt)}'
+        if n_ % 7 == 0 or 400 < n_ <= 5000:
+            yield f'sh.ser.ll {b};i1;{b},t{hexs(b"tok")};{b}'
+            yield f'sh.ser.pl {hexs(b"a")};{hexs(b"k")}={b};{hexs(b"z")}=i1,{hexs(b"b")};{hexs(b"cert-sha256")}={b}'
+
